@@ -152,9 +152,11 @@ class ExplorerScriptSsbDecompiler:
 
             return self._output, self.smb.build()
 
-        except AssertionError:
+        except Exception:
             # If an assertion failed, then either there is a bug in the decompiler or the script is not valid, ie.
             # has no ending opcode at the end of routines. Try to fallback to SsbScript.
+            # The same goes for the other errors that the graph building and the write handlers raise for
+            # routines they can not deal with (ValueError, KeyError, IndexError, TypeError, RecursionError...).
             self._routine_ops = raw_routine_backup_ops
             logger.warning("Failed to decompile. Falling back to SsbScript...")
             prefix = "//?: is-ssb-script: true\n"
